@@ -77,3 +77,29 @@ Definition entry_whatwg (bscheme bhost : bytes) (bport : N) (input : bytes) : li
   | WOther s => [[79]; s]
   | WTuple s h p => [[84]; s; h; match p with Some v => nbytes v | None => [] end]
   end.
+
+(* SSOProxy.Login / Logout behind the real router: status, the URL the browser is sent to without its query
+   (the SSO server URL ++ /oauth2/login | /oauth2/logout; [server] has no trailing slash and no query), whether a
+   redirect parameter is handed over, and its value. [ingresses] are the configured ingress strings. *)
+Fixpoint spx_parse_all (l : list bytes) : option (list url) :=
+  match l with
+  | [] => Some []
+  | s :: r => match parse_ingress s, spx_parse_all r with
+              | Some u, Some us => Some (u :: us)
+              | _, _ => None
+              end
+  end.
+Definition spx_path_login : bytes := [47;111;97;117;116;104;50;47;108;111;103;105;110].            (* /oauth2/login *)
+Definition spx_path_logout : bytes := [47;111;97;117;116;104;50;47;108;111;103;111;117;116].       (* /oauth2/logout *)
+Definition entry_spxhandler (ingresses : list bytes) (fallback server reqhost reqpath : bytes) (logout : bool) (param : bytes)
+  : list bytes :=
+  match spx_parse_all ingresses, parse_ingress fallback with
+  | Some ings, Some fb =>
+    let h := if logout then spx_logout_handover ings fb reqhost reqpath param
+             else spx_login_handover ings fb reqhost reqpath param in
+    [ [51;48;50];                                                     (* 302 *)
+      server ++ (if logout then spx_path_logout else spx_path_login);
+      bb (match h with Some _ => true | None => false end);
+      match h with Some c => c | None => [] end ]
+  | _, _ => err_fields
+  end.
